@@ -199,8 +199,55 @@ def gen_term(rng):
 
         g = gen_v2.gen_hierarchy(rng, max_flows=5, loops=True, main_kids_first=True, ext_end=rng.random() < 0.3)
         src = g["src"]
+        if _activated_internal_wait_only(src):
+            meta["activated_internal_wait_only"] = True  # structural signature of the listed finding, also inside a hierarchy
     hist = ["E%d" % rng.randint(1, 3) for _ in range(rng.randint(3, 10))]
     return src, hist, meta
+
+
+
+def _activated_internal_wait_only(src):
+    """Structural test on a generated hierarchy: is some ACTIVATED flow of the kind the listed finding names - it waits
+    (await <flow>) but only for flows that themselves never wait for anything external, so it ends in the processing step
+    in which it was started? NW = least set of flows whose every statement is an assignment, the start of an action, a
+    FinishFlow/StopFlow send, or start/await/activate of NW flows."""
+    import re
+
+    bodies = {}
+    cur = None
+    for line in src.split("\n"):
+        if line.startswith("flow "):
+            cur = line[5:].strip()
+            bodies[cur] = []
+        elif cur is not None and line.strip():
+            bodies[cur].append(line.strip())
+    def refs(stmt):
+        m_ = re.match(r"^(start|await|activate) ((?:f[a-z]+)(?: (?:and|or) f[a-z]+)*)$", stmt)
+        return re.findall(r"f[a-z]+", m_.group(2)) if m_ else None
+    nw = set()
+    changed = True
+    while changed:
+        changed = False
+        for f_, body in bodies.items():
+            if f_ in nw or f_ == "main":
+                continue
+            ok = True
+            for st in body:
+                if re.match(r"^start F\w+Action\(\)( as \$\w+)?$", st) or re.match(r"^\$\w+ = ", st) or st.startswith("send FinishFlow(") or st.startswith("send StopFlow("):
+                    continue
+                r_ = refs(st)
+                if r_ is not None and all(x in nw for x in r_):
+                    continue
+                ok = False
+                break
+            if ok:
+                nw.add(f_)
+                changed = True
+    activated = set(re.findall(r"^\s*activate (f[a-z]+)\s*$", src, re.M))
+    for f_ in activated & nw:
+        if any(st.startswith("await f") for st in bodies.get(f_, [])):
+            return True
+    return False
 
 
 def cases(tier, seed):
